@@ -26,6 +26,36 @@ KNOWN_ALT = {
 KEY_BAD_ORDER = 'sort_hr_rules:order-not-dependency-respecting:item-defined-by-an-equality-and-a-comparison-rule'
 KEY_CYCLE = 'check_hierarchy:reference-manual-example-ruleset-rejected-as-cyclic:1-3-2-3'
 KEY_DSPRIO = 'check_hierarchy:input-mode-dataset_priority:raw-NotImplementedError'
+KEY_SIGN = 'hierarchical-rule:right-side-starts-with-a-sign:AttributeError-HRUnOp-has-no-attribute-value'
+KEY_ALIAS = 'check_datapoint:signature-alias:not-resolved-inside-parentheses-or-in-list:BinderException'
+KEY_BOOLNAME = 'check:boolean-operand-measure-not-named-bool_var:structure-keeps-the-operand-name'
+KEY_ELTEXT = 'ruleset:errorlevel-missing-on-some-rules:numeric-errorlevel-returned-as-text'
+
+
+def normalise_errorlevel(e):
+    """a numeric errorlevel that comes back as text ('5.0') is compared as the number it spells; -> (engine outcome, flagged)."""
+    if e[0] != 'ok' or 'DS_r' not in e[1] or e[1]['DS_r'][0] != 'ds':
+        return e, False
+    kind, comps, rows = e[1]['DS_r']
+    names = [c[0] for c in comps]
+    if 'errorlevel' not in names:
+        return e, False
+    j = names.index('errorlevel')
+    if comps[j][2] not in ('Number', 'Integer'):
+        return e, False
+    flagged, out = False, []
+    for r in rows:
+        v = r[j]
+        if isinstance(v, str):
+            try:
+                v = float(v)
+                flagged = True
+            except ValueError:
+                pass
+        out.append(r[:j] + (v,) + r[j + 1:])
+    res = dict(e[1])
+    res['DS_r'] = (kind, comps, out)
+    return ('ok', res), flagged
 
 
 # ---------------------------------------------------------------------------------------------- engine side
@@ -124,7 +154,7 @@ def rm_load(n, where, name):
         for rec in rd:
             rows.append(tuple(_conv(t, rec.get(nm)) for nm, t, _ in comps))
     ids = [(nm, t) for nm, t, role in comps if role == 'Identifier']
-    meas = [(nm, t) for nm, t, role in comps if role != 'Identifier']
+    meas = [(nm, t) for nm, t, role in comps if role == 'Measure']        # attributes are not modelled (the HR operators strip them)
     order = [nm for nm, _ in ids + meas]
     pos = {nm: i for i, (nm, _, _) in enumerate(comps)}
     rows = [tuple(r[pos[nm]] for nm in order) for r in rows]
@@ -188,6 +218,13 @@ def replay_of(c, v, d, e, a, extra=None):
 def generic_key(c, v, d, e):
     m = c['meta']
     base = '%s:%s:%s' % (m['op'], m.get('mode', '-'), m.get('output', '-'))
+    msg = str(e[-1]) if len(e) > 2 else ''
+    if e[0] == 'raw' and "'HRUnOp' object has no attribute 'value'" in msg and m.get('leading_sign'):
+        return KEY_SIGN
+    if e[0] == 'raw' and 'BinderException' in e[1] and m.get('aliases') and 'Referenced column "X' in msg:
+        return KEY_ALIAS
+    if v == 'DISAGREE:columns-vs-components' and m['op'] == 'check' and m.get('bool_measure', 'bool_var') != 'bool_var':
+        return KEY_BOOLNAME
     if v in ('DISAGREE:engine-error', 'DISAGREE:model-divzero') and e[0] == 'raw':
         return '%s:%s:%s' % (base, e[1].split('.')[-1], CC.msg_head(e))
     if v == 'DISAGREE:engine-error' and e[0] == 'vtl':
@@ -271,6 +308,11 @@ def main(ck):
                 hist['rm-engine:agree'] += 1
             continue
         m = c['meta']
+        e, el_text = normalise_errorlevel(e)
+        if el_text:
+            hist['errorlevel-returned-as-text'] += 1
+            ck.violation(KEY_ELTEXT, replay_of(c, 'errorlevel-as-text', '', e, a), 'the errorlevel column is declared Number but holds text when some rule of the '
+                         'ruleset has no errorlevel: ' + c['vtl'][-200:])
         v, d = R.compare(c, a, e)
         # validity of the engine's rule order (independent of the comparison)
         vo = model[i].get('validorder')
